@@ -647,7 +647,8 @@ func main() {
 	}
 	// roles and their roots
 	roots := map[string][]string{
-		"api":    {"Server.Start", "Server.Stop", "Server.Restart", "ConnManager.Conns", "ConnManager.ConnByUUID"},
+		"api":    {"Server.Start", "Server.Stop", "Server.Restart"},
+		"query":  {"ConnManager.Conns", "ConnManager.ConnByUUID"}, // registry queries: any goroutine, any time
 		"accept": {"Server.serve", "Server.tlsServe"},
 		"conn":   {},
 	}
@@ -665,7 +666,7 @@ func main() {
 		where     string
 	}
 	var rows []rowT
-	for _, role := range []string{"api", "accept", "conn"} {
+	for _, role := range []string{"api", "query", "accept", "conn"} {
 		entry := map[string]lockset{}
 		var queue []string
 		for _, r := range roots[role] {
@@ -731,7 +732,7 @@ func main() {
 			}
 		}
 	}
-	roleC := map[string]string{"api": "RApi", "accept": "RAccept", "conn": "RConn"}
+	roleC := map[string]string{"api": "RApi", "accept": "RAccept", "conn": "RConn", "query": "RQuery"}
 	write := func(path, title, tname string, keep func(rowT) bool) {
 		var sb strings.Builder
 		sb.WriteString("(* " + title + " - GENERATED by /verif/lockset from the Go source on every C14 / C16 run; do not edit.\n")
